@@ -43,8 +43,8 @@ LineEnd(s, i) == IF i > Len(s) \/ s[i] = "\n" THEN i ELSE LineEnd(s, i + 1)
 RECURSIVE NumVal(_, _, _)
 NumVal(ds, base, acc) == IF ds = <<>> THEN acc ELSE NumVal(Tail(ds), base, acc * base + DigitVal(Head(ds)))
 
-MaxDecDigits == 9   \* values beyond are representable in SPL but not in TLC's 32-bit integers:
-MaxHexDigits == 7   \* such literals are marked `bad` (= not decided here)
+MaxDecDigits == 9   \* SIGNIFICANT digits (leading zeros do not count): values beyond are representable in SPL
+MaxHexDigits == 7   \* but not in TLC's 32-bit integers: such literals are marked `bad` (= not decided here)
 
 \* Deviation switch: the pinned implementation required a line feed to end a
 \* comment (so `//x` at the end of the text lexed as `/` `/` `x`).  FALSE is
@@ -88,11 +88,15 @@ Tok(s, i) ==
          LET j == Run(s, i + 2, HexDigits) IN
          IF j = i + 2
          THEN T("Hex", j, 0, <<>>, TRUE, j)
-         ELSE T("Hex", j, IF j - (i + 2) > MaxHexDigits THEN 0 ELSE NumVal(SubSeq(s, i + 2, j - 1), 16, 0),
-                <<>>, j - (i + 2) > MaxHexDigits, 0)
+         ELSE LET z == Run(s, i + 2, {"0"})                     \* leading zeros do not count
+                  sig == j - (IF z > j THEN j ELSE z) IN
+              T("Hex", j, IF sig > MaxHexDigits THEN 0 ELSE NumVal(SubSeq(s, i + 2, j - 1), 16, 0),
+                <<>>, sig > MaxHexDigits, 0)
     [] c \in Digits /\ ~(c = "0" /\ c1 = "x") ->
          LET j == Run(s, i, Digits) IN
-         T("Int", j, IF j - i > MaxDecDigits THEN 0 ELSE NumVal(SubSeq(s, i, j - 1), 10, 0), <<>>, j - i > MaxDecDigits, 0)
+         LET z == Run(s, i, {"0"})
+             sig == j - (IF z > j THEN j ELSE z) IN
+         T("Int", j, IF sig > MaxDecDigits THEN 0 ELSE NumVal(SubSeq(s, i, j - 1), 10, 0), <<>>, sig > MaxDecDigits, 0)
     [] c \in IdStart ->
          LET j == Run(s, i, IdCont) w == SubSeq(s, i, j - 1) k == KwKind(w) IN
          T(k, j, 0, IF k = "Ident" THEN w ELSE <<>>, FALSE, 0)
